@@ -1,14 +1,19 @@
 #!/bin/sh
-# tools/merge_ws.sh <name> [apply]: show (or copy) what a package workspace /tmp/w/<name>/verif changed relative to /verif.
-# Shared files are never copied: their diffs are printed for a manual merge.
+# tools/merge_ws.sh <name> [apply]: show (or copy) what a package workspace /tmp/w/<name>/verif changed relative to
+# the commit it was copied from (BASE, default 7b5e068).  Files the agent did not touch are skipped even if /verif moved on.
+# Shared files are never copied: they are listed for a manual merge (diff against BASE shown with `diff`).
 W=/tmp/w/$1/verif
+BASE=${BASE:-7b5e068}
 SHARED="lean/Main.lean harness/src/ops/mod.rs tools/mk_manifest.py tools/extract_consts.py lean/SmVerif/Model/Basic.lean known_findings.json DESIGN.md MANIFEST.json tools/runner.py harness/Cargo.toml harness/src/util.rs harness/src/main.rs lean/SmVerif/Generated/Consts.lean .gitignore tools/PACKAGE_BRIEF.md tools/AGENT_LEAN_NOTES.md lean/SmVerif.lean"
 cd "$W" || exit 1
-find . -type f \( -path ./lean/.lake -o -path ./harness/target -o -path ./.work -o -path ./evidence -o -path ./replays -o -name '*.pyc' -o -path './harness/Cargo.lock' \) -prune -o -type f -print | grep -v -e '^./lean/.lake/' -e '^./harness/target/' -e '^./.work/' -e '^./evidence/' -e '^./replays/' -e '__pycache__' -e 'Cargo.lock' | sed 's|^\./||' | while read f; do
-  if ! cmp -s "$W/$f" "/verif/$f"; then
-    sh=0; for s in $SHARED; do [ "$s" = "$f" ] && sh=1; done
-    if [ $sh = 1 ]; then echo "SHARED  $f"; 
-    elif [ -e "/verif/$f" ]; then echo "CHANGED $f"; [ "$2" = apply ] && cp "$W/$f" "/verif/$f";
-    else echo "NEW     $f"; [ "$2" = apply ] && mkdir -p "$(dirname /verif/$f)" && cp "$W/$f" "/verif/$f"; fi
-  fi
+find . -type f | grep -v -e '^./lean/.lake/' -e '^./harness/target/' -e '^./.work/' -e '^./evidence/' -e '^./replays/' -e '__pycache__' -e 'Cargo.lock' | sed 's|^\./||' | while read f; do
+  if git -C /verif cat-file -e "$BASE:$f" 2>/dev/null; then
+    git -C /verif show "$BASE:$f" | cmp -s - "$W/$f" && continue     # untouched by the agent
+    st=CHANGED
+  else st=NEW; fi
+  cmp -s "$W/$f" "/verif/$f" && continue
+  sh=0; for s in $SHARED; do [ "$s" = "$f" ] && sh=1; done
+  if [ $sh = 1 ]; then echo "SHARED  $f"; [ "$2" = diff ] && git -C /verif show "$BASE:$f" | diff - "$W/$f";
+  else echo "$st $f"; [ "$2" = apply ] && mkdir -p "$(dirname /verif/$f)" && cp "$W/$f" "/verif/$f"; fi
 done
+true
